@@ -141,6 +141,16 @@ def _fill(space: spaces.Box, base: int) -> np.ndarray:
     return np.asarray(out).astype(dt).reshape(space.shape)
 
 
+def _relayout(o):
+    """the same array values as a non C-contiguous array (Fortran order) for every leaf of rank >= 2"""
+    if isinstance(o, dict):
+        return {k: _relayout(v) for k, v in o.items()}
+    if isinstance(o, tuple):
+        return tuple(_relayout(v) for v in o)
+    a = np.asarray(o)
+    return np.asfortranarray(a) if a.ndim >= 2 else a
+
+
 def make_obs(space: spaces.Space, base: int):
     if isinstance(space, spaces.Dict):
         return {key: _fill(sub, base + 1009 * (j + 1)) for j, (key, sub) in enumerate(space.spaces.items())}
@@ -197,7 +207,11 @@ class ScriptedPZ(ParallelEnv):
                 + self.t * 101 + k * 13 + digest * 7)
 
     def _obs(self, k, digest):
-        return make_obs(self._obs_spaces[f"agent_{k}"], self._base(k, digest))
+        o = make_obs(self._obs_spaces[f"agent_{k}"], self._base(k, digest))
+        if int(self.spec.get("layout", 0)):
+            # same VALUES, another memory layout: environments hand out transposed / channel-moved views of their own buffers
+            o = _relayout(o)
+        return o
 
     def _reward(self, k, digest):
         return float(self.inst + 0.5 * self.episode + 0.25 * self.t + 0.125 * k + 2.0 * digest + 16.0 * self.seed_val)
